@@ -43,7 +43,7 @@ func (u *Unit) constValue(cv constant.Value, t types.Type) (Value, bool) {
 			return Value{}, false
 		}
 		if isInteger(t) || t == types.Typ[types.UntypedInt] || t == types.Typ[types.UntypedRune] {
-			if u.bv && isInteger(t) {
+			if u.bv && isInteger(t) && t != types.Typ[types.UntypedInt] && t != types.Typ[types.UntypedRune] {
 				return scalar(t, BVLit(n, bitWidth(t))), true
 			}
 			return scalar(t, BigLit(n)), true
@@ -632,6 +632,8 @@ func (u *Unit) convertConst(v Value, t types.Type) Value {
 		if n, ok := v.L[0].intVal(); ok {
 			return scalar(t, BVLit(n, bitWidth(t)))
 		}
+		// a compound integer term (ite over literals in a spec function): bridge explicitly
+		return scalar(t, Term{fmt.Sprintf("((_ int2bv %d) %s)", bitWidth(t), v.L[0].S), BVSort(bitWidth(t))})
 	}
 	if v.T == types.Typ[types.UntypedInt] || v.T == types.Typ[types.UntypedRune] || v.T == types.Typ[types.UntypedNil] {
 		return Value{T: t, L: v.L}
